@@ -319,6 +319,21 @@ func (p *phaser) alignAgainstRefsAA(seq Sequence, orfsaa []Sequence) (ph PhasedS
 		}
 	}
 
+	if bestseq == nil {
+		// No alignment with a positive score against any reference, in any
+		// phase: the sequence is discarded, as those aligning poorly
+		ph = PhasedSequence{
+			Err:      nil,
+			Removed:  true,
+			Position: 0,
+			NtSeq:    seq.Clone(),
+			CodonSeq: seq.Clone(),
+			AaSeq:    NewSequence(seq.Name(), []uint8{}, seq.Comment()),
+			Ali:      nil,
+		}
+		return
+	}
+
 	ph = PhasedSequence{
 		Err:      nil,
 		Removed:  false,
@@ -409,6 +424,21 @@ func (p *phaser) alignAgainstRefsNT(seq Sequence, orfs []Sequence) (ph PhasedSeq
 				}
 			}
 		}
+	}
+
+	if bestseq == nil {
+		// No alignment with a positive score against any reference, in any
+		// phase: the sequence is discarded, as those aligning poorly
+		ph = PhasedSequence{
+			Err:      nil,
+			Removed:  true,
+			Position: 0,
+			NtSeq:    seq.Clone(),
+			CodonSeq: seq.Clone(),
+			AaSeq:    NewSequence(seq.Name(), []uint8{}, seq.Comment()),
+			Ali:      nil,
+		}
+		return
 	}
 
 	phase = (3 - nbgapstart%3) % 3
